@@ -17,6 +17,7 @@ PROP = 'C18'
 FID = 'F-PY-ARRELEM'
 FID_WRAP = 'F-PY-ARRWRAP'
 FID_FPREC = 'F-PY-ARRWRAP-FPREC'
+FID_NUM = 'F-PY-NUMTEXT'
 
 MANIFEST = dict(
     technique='Coq proof (induction over operation sequences) about a hand model of the generated Python classes whose template facts and '
@@ -49,7 +50,7 @@ MANIFEST = dict(
          'property text).  The support-library functions are tied by a shape pin, not translated.  Trusted: Coq kernel; the scanner and the pick_width translator (tools/translators/gen_c18.py); '
          'the hand model of NumPy conversion (np.array/flatten incl. the ASSUMED NumPy 2 law: C-cast wrap-around for ndarrays of another dtype, OverflowError for out-of-range Python ints; rounding to float16/32, int()/float()/bool()) which is validated by the '
          'correspondence run, not verified; extraction (ExtrOcamlBasic only) + ocaml/c18_driver.ml; tools/harness/c18_impl.py and the codec '
-         'harness Python target.  Model domain: strings/bytes handed to numeric conversions are non-numeric text, nesting of list arguments is '
+         'harness Python target.  Model domain: text handed to int()/float() is ASCII (CPython grammar incl. underscores, white space, inf/nan, correctly rounded decimals; the string parser of NumPy itself for text beyond the dtype is outside), nesting of list arguments is '
          'rectangular or ragged at depth <= 2, values reach setters as Python built-ins or 1-d NumPy arrays.',
     design='§5 C18')
 
@@ -70,10 +71,18 @@ PROBE_FILES = {
     # field names that are Python keywords / builtins: the generated attribute is stropped (`if_`), the DSDL name is not
     'c18p/K.1.0.dsdl': 'uint4 if\nint12 class\nfloat16 id\nuint4[<=3] min\nbool max\nuint8[<=4] range\nfloat32[2] len\nuint8 del\nInner.1.0 lambda\n@sealed\n',
     'c18p/KU.1.0.dsdl': '@union\nuint4 if\nfloat16 class\nK.1.0 id\nuint8[<=3] range\nInner.1.0[<=2] list\n@sealed\n',
+    # minor versions (package alias X_1 must be the newest) and a deprecated type (its constructor warns)
+    'c18p/Ver.1.0.dsdl': 'uint8 a\n@extent 64\n',
+    'c18p/Ver.1.2.dsdl': 'uint8 a\nuint8 b\n@extent 64\n',
+    'c18p/Ver.1.1.dsdl': 'uint8 a\n@extent 64\n',
+    'c18p/Dep.1.0.dsdl': '@deprecated\nuint4[<=2] x\nInner.1.0 y\n@sealed\n',
     'c18p/Svc.1.0.dsdl': 'uint4[<=2] q\nU.1.0 u\n@sealed\n---\nfloat16 r\nInner.1.0[<=2] l\n@extent 100 * 8\n',
 }
 
-TEXT = 'bcdgh xyz'
+TEXT = 'bcdgh xyz0123456789_+-. e'      # incl. everything int()/float() text is made of
+NUMTEXT = ['123', '12', '7', '0', ' 12 ', '1_0', '+7', '-5', '0000123', '00', '255', '256', '300', '65535', '-1', '0x10', '1e3', '1.5', '2.5', '.5',
+           '5.', '1_0.5', '-1_0.5e1', '1e-3', '0.1', '3.14159', 'nan', 'inf', '-Infinity', 'INF', '1e', '.', '', ' ', '1__0', '_1', '1_', '12a', '\t7\n',
+           '1e22', '70000', '1e6', '65519.9', '1 2', '--1', '+-1', '9' * 25]
 
 
 # ---------------------------------------------------------------------------------------------------------------------
@@ -290,7 +299,8 @@ class Gen:
         if c == 11:
             return lit(None), None, {'none'}
         if c == 12:
-            return lit(vs(r.choice(['x', 'bcd', 'g h']))), None, {'str'}
+            txt = r.choice(['x', 'bcd', 'g h'] + NUMTEXT)
+            return lit(r.choice([vs(txt), vy(txt.encode())])), None, {'str', 'scalar_numtext'}
         if c == 13:
             return lit({'l': [vi(1)]}), None, {'list'}
         if c == 14:
@@ -328,7 +338,8 @@ class Gen:
         if c == 11:
             return lit(None), None, {'none'}
         if c == 12:
-            return lit(vs(r.choice(['x', 'bcd']))), None, {'str'}
+            txt = r.choice(['x', 'bcd'] + NUMTEXT)
+            return lit(r.choice([vs(txt), vy(txt.encode())])), None, {'str', 'scalar_numtext'}
         if c == 13:
             return lit({'l': [vf(1.0)]}), None, {'list'}
         if c == 14:
@@ -482,6 +493,14 @@ class Gen:
         exp = 'accept' if legal else 'reject'
         if not valid_only and k in ('uint', 'int', 'bool', 'float') and n <= 300 and r.random() < 0.2:
             return self.nd_any(t, n, legal, tags)
+        if not valid_only and k in ('int', 'bool', 'float') and r.random() < 0.06:
+            txt = r.choice(NUMTEXT)          # whole-value text for an array that cannot be string-like: never an array
+            return lit(r.choice([vs(txt), vy(txt.encode())])), 'reject', {'numtext', 'arr_text_' + k}
+        if not valid_only and k in ('uint', 'int', 'float') and n and r.random() < 0.04:
+            good = {'uint': ['1', ' 2 ', '0_0', '+0'], 'int': ['1', '-1', ' 2 ', '0_0'], 'float': ['1.5', '1e1', ' -2.5 ', '.5', 'nan', 'inf', '0.1']}[k]
+            good = [g for g in good if k == 'float' or int_range(et)[0] <= int(g.replace('_', '')) <= int_range(et)[1]]
+            if good:                       # text ELEMENTS of a list are parsed one by one by NumPy (int() / float())
+                return lit({'l': [r.choice([vs(r.choice(good)), vy(r.choice(good).encode())]) for _ in range(n)]}), None, tags | {'elem_numtext'}
         if n > 400:
             n = 400 if not legal and not fixed and t['cap'] < 400 else n
         if k in ('uint', 'int'):
@@ -510,6 +529,8 @@ class Gen:
             if mode in ('floaty', 'bools', 'none', 'strel'):
                 tags.add('elem_' + mode)
                 exp = None
+                if mode == 'floaty' and any(abs(e) >= 2 ** 52 for e in elems):
+                    mode = 'bools'      # a list mixing floats with ints beyond 2**53 is inferred as float64 by np.asarray: outside the model
                 if mode == 'floaty':
                     return lit({'l': [vf(float(e) + (0.5 if 0 <= e < shi else 0.0)) if abs(e) < 2 ** 52 else vi(e) for e in elems]}), None, tags
                 if mode == 'bools':
@@ -521,14 +542,31 @@ class Gen:
             if form == 'bytes' and et['k'] == 'uint' and et['w'] <= 8 and all(0 <= e <= 255 for e in elems):
                 tags.add('arr_bytes')
                 if not legal:
-                    elems = [ord(r.choice('bcdxyz')) for _ in elems]     # over-long bytes go to int(b'...'): keep them non-numeric
+                    if r.random() < 0.6:      # text that int() can parse: must still be rejected for its length (F-PY-NUMTEXT)
+                        elems = [ord(c) for c in (r.choice(['0', '00', ' ', '']) + r.choice(['1', '12', '123', '7', '1_0']) + r.choice(['', ' ', '  '])).ljust(len(elems), ' ')][:max(len(elems), 1)]
+                        tags.add('numtext')
                     if mode == 'trigger':
                         tags.discard('arrelem')
                 return lit(vy(bytes(elems))), exp, tags
             if form == 'str' and mode == 'valid':
-                s = ''.join(r.choice(TEXT if strlike else 'bcdgh') for _ in range(n))
+                s = ''.join(r.choice(TEXT) for _ in range(n))
+                if r.random() < 0.4:
+                    s = r.choice(NUMTEXT)
+                    if strlike:
+                        s = s.rjust(n, r.choice('0 ')) if len(s) < n else s
+                        legal = (len(s.encode()) == t['n']) if fixed else (len(s.encode()) <= t['cap'])
+                        exp = 'accept' if legal else 'reject'
+                        tags = {'arr_len_legal' if legal else 'arr_over_capacity', 'numtext'}
+                    else:
+                        tags = tags | {'numtext'}
+                if strlike and 'numtext' not in tags and r.random() < 0.15 and (t['cap'] if not fixed else t['n']) >= 1:
+                    # the CHARACTER count fits, the UTF-8 byte count does not: the capacity is about bytes
+                    c_ = t['n'] if fixed else t['cap']
+                    s = r.choice(['é', 'ж', '€', '😀']) * max(1, (c_ + 1) // 2 if c_ > 1 else 1)
+                    if len(s.encode()) > c_ or (fixed and len(s.encode()) != c_):
+                        return lit(vs(s)), 'reject', {'arr_str', 'str_utf8_overflow'}
                 if strlike:
-                    if r.random() < 0.2 and n >= 2:
+                    if r.random() < 0.2 and n >= 2 and 'numtext' not in tags:
                         s = s[:n - 2] + 'é'
                     tags.add('arr_str')
                     if not legal:
@@ -536,9 +574,9 @@ class Gen:
                     if any(not lo <= b <= hi for b in s.encode()):
                         return lit(vs(s)), None, tags
                     return lit(vs(s)), exp, tags
-                if s:
-                    tags.add('arr_str_nonstring')
-                    return lit(vs(s)), None, tags
+                # a str for an array that is not string-like: "text is not a number" -> the contract says it raises
+                tags.add('arr_str_nonstring')
+                return lit(r.choice([vs(s), vy(s.encode())]) if not (et['k'] == 'uint' and et['w'] <= 8) else vs(s)), 'reject', tags | {'numtext'}
             if form == 'nd':
                 tags.add('arr_ndarray')
                 return {'nd': dt_name(et), 'e': [lit(vi(e)) for e in elems]}, exp, tags
@@ -981,6 +1019,15 @@ def conv_sweep(rng: random.Random) -> typing.List[dict]:
         add('law_bool_truthiness', 'b', {'nd': src, 'e': e})
     add('law_bool_truthiness', 'b', lit({'l': [True, vi(0), vi(5), vf(0.0), vf(2.5), None]}))
     add('law_object_identity', 'o', lit({'l': [vi(1), None, vs('ab'), vf(1.5)]}))
+    for txt in NUMTEXT:
+        for dt in ('u8', 'i16', 'i64'):
+            add('law_text_int', dt, lit(rng.choice([vs(txt), vy(txt.encode())])))
+        add('law_text_int_elem', 'i16', lit({'l': [vs(txt)]}))
+        if txt not in ('1e6', '70000', '65519.9', '1e22', '9' * 25):      # text beyond the dtype: NumPy's own string parser decides, not float()
+            for dt in ('f16', 'f32', 'f64'):
+                add('law_text_float', dt, lit(rng.choice([vs(txt), vy(txt.encode())])))
+        add('law_text_float', 'f64', lit(vs(txt)))
+        add('law_text_bool', 'b', lit(vs(txt)))
     return out
 
 
@@ -1016,6 +1063,13 @@ def probe_cases(m: MDB) -> typing.List[typing.Tuple[dict, typing.List[dict]]]:
         one(s, [{'set': fi['va4'], 'x': L(200, 3)}], [('reject', ['arrelem', 'witness'])]),
         one(s, [{'set': fi['va8'], 'x': {'nd': 'i64', 'e': [lit(vi(256)), lit(vi(1))]}}], [('reject', ['arrwrap', 'witness'])]),   # index 1: F-PY-ARRWRAP
         one(s, [{'set': fi['vi16'], 'x': {'nd': 'f16', 'e': [lit(vf(32768.0)), lit(vf(1.0))]}}], [('reject', ['arrwrap', 'arrwrap_fprec', 'witness'])]),  # index 2
+        one(s, [{'set': fi['va8'], 'x': lit(vy(b'00123'))}], [('reject', ['numtext', 'arr_bytes', 'arr_over_capacity', 'witness'])]),   # index 3: F-PY-NUMTEXT
+        one(s, [{'set': fi['fb'], 'x': lit(vy(b'12'))}, {'set': fi['s'], 'x': lit(vs('0000123'))}, {'set': fi['vi16'], 'x': lit(vs('12'))},
+                {'set': fi['vf16'], 'x': lit(vy(b'2.5'))}, {'set': fi['vb'], 'x': lit(vs('0'))}, {'set': fi['va8'], 'x': lit(vy(b'12'))},
+                {'set': fi['s'], 'x': lit(vs('12345'))}, {'set': fi['n4'], 'x': lit(vs(' 1_0 '))}, {'set': fi['f32'], 'x': lit(vy(b'1e3'))},
+                {'ufb': {'d': [[fi['s'], 's', lit(vs('0000123'))]]}}],
+            [('reject', ['numtext']), ('reject', ['numtext']), ('reject', ['numtext']), ('reject', ['numtext']), ('reject', ['numtext']),
+             ('accept', ['arr_bytes']), ('accept', ['arr_str']), (None, ['scalar_numtext']), (None, ['scalar_numtext']), (None, ['numtext_ufb'])]),
         one(s, [{'set': fi['va4'], 'x': lit(vy(b'\xff\x01'))}], [('reject', ['arrelem', 'arr_bytes', 'witness'])]),
         one(s, [{'set': fi['vi16'], 'x': {'nd': 'i64', 'e': [lit(vi(70000)), lit(vi(1))]}}, {'set': fi['va8'], 'x': {'nd': 'i64', 'e': [lit(vi(-1))]}},
                 {'set': fi['vi16'], 'x': {'nd': 'u16', 'e': [lit(vi(40000))]}}, {'set': fi['va8'], 'x': {'nd': 'f64', 'e': [lit(vf(300.0))]}},
@@ -1093,6 +1147,7 @@ def run_namespace(label: str, spec: dict, seed: int, n_cases: int, repo: str, ex
     try:
         impl_doc = json.loads(q.stdout)
         impl, impl_defaults = impl_doc['out'], impl_doc['defaults']
+        res['alias_bad'], res['alias_checked'] = impl_doc.get('alias_bad', []), impl_doc.get('alias_checked', 0)
     except Exception:
         res['errors'].append('impl harness failed: rc=%s %s' % (q.returncode, (q.stderr or q.stdout)[-800:]))
         return res
@@ -1107,6 +1162,8 @@ def run_namespace(label: str, spec: dict, seed: int, n_cases: int, repo: str, ex
         res['witness'] = bool(w.get('steps') and w['steps'][0][0] == 'ok' and 'i200' in w['steps'][0][1])
         w2 = impl[1]
         res['witness_wrap'] = bool(w2.get('steps') and w2['steps'][0][0] == 'ok')      # uint8[<=4] = np.array([256, 1], int64) accepted
+        w4 = impl[3]
+        res['witness_num'] = bool(w4.get('steps') and w4['steps'][0][0] == 'ok')      # uint8[<=4] = b'00123' accepted (stores [123])
         w3 = impl[2]
         res['witness_fprec'] = bool(w3.get('steps') and w3['steps'][0][0] == 'ok')     # int16[<=3] = np.array([32768, 1], float16) accepted
     res['_convs'] = (convs, impl[len(cases):])
@@ -1115,7 +1172,8 @@ def run_namespace(label: str, spec: dict, seed: int, n_cases: int, repo: str, ex
     return res
 
 
-def finish_namespace(res: dict, exe: typing.Optional[str], quirk: bool, wrap_live: bool = False, fprec_live: bool = False) -> None:
+def finish_namespace(res: dict, exe: typing.Optional[str], quirk: bool, wrap_live: bool = False, fprec_live: bool = False,
+                     num_live: bool = False) -> None:
     """model run (needs the probed quirk) and all comparisons"""
     m, cases, impl, impl_defaults = res.pop('_pending')
     convs, conv_impl = res.pop('_convs', ([], []))
@@ -1214,7 +1272,8 @@ def finish_namespace(res: dict, exe: typing.Optional[str], quirk: bool, wrap_liv
                 # an instance of the known finding: its trigger holds, the witness reproduces on this tree, and the quirk-faithful
                 # model (when it could be built) predicts exactly this outcome and state
                 is_known = agrees and ((quirk and ((cls == 'invalid_accepted' and trig) or cls == 'elem_range'))
-                                       or (wrap_live and cls == 'invalid_accepted' and 'arrwrap' in ex['tags']))
+                                       or (wrap_live and cls == 'invalid_accepted' and 'arrwrap' in ex['tags'])
+                                       or (num_live and cls == 'invalid_accepted' and 'numtext' in ex['tags']))
                 if is_known:
                     res['known_instances'] += 1
                 else:
@@ -1246,6 +1305,9 @@ def finish_namespace(res: dict, exe: typing.Optional[str], quirk: bool, wrap_liv
         elif not foreign and (rt != 'same' or im.get('ser', 'same') != 'same'):
             res['oracle'].append({'class': 'builtin_round_trip', 'detail': '%s / serialization %s' % (rt[:200], im.get('ser')), 'case': case,
                                   'impl': [rt[:300], final[:600]], 'type': m.order[case['tid']]})
+    bump('alias_checked', res.get('alias_checked', 0))
+    for a in res.get('alias_bad', []):
+        res['oracle'].append({'class': 'minor_version_alias', 'detail': a, 'type': a})
     for tid_, ans in res['models']:
         bump('model_' + ('equal' if ans == 'ok equal' else 'differ'))
         if ans != 'ok equal':
@@ -1406,6 +1468,19 @@ def main(chk: core.Check, replay: typing.Optional[str] = None) -> int:
     wrap_live = bool(witness_wrap) and chk.is_known(FID_WRAP)
     if wrap_live:
         chk.report_known(FID_WRAP)
+    witness_num = next((r.get('witness_num') for r in results if r['label'] == 'probe'), None)
+    tmpl_guard = None
+    try:
+        gt = open(os.path.join(core.COQ, 'theories', 'Generated', 'Gen_PyObj.v'), encoding='utf-8').read()
+        tmpl_guard = 't_text_guard := true' in gt if 't_text_guard' in gt else None
+    except OSError:
+        pass
+    if tmpl_guard is not None and witness_num is not None and tmpl_guard == bool(witness_num):
+        broken.append('the scanned template says t_text_guard=%s but uint8[<=4] = b\'00123\' %s on the generated classes'
+                      % (tmpl_guard, 'is accepted' if witness_num else 'is rejected'))
+    num_live = bool(witness_num) and chk.is_known(FID_NUM)
+    if num_live:
+        chk.report_known(FID_NUM)
     witness_fprec = next((r.get('witness_fprec') for r in results if r['label'] == 'probe'), None)
     try:
         gen_text = open(os.path.join(core.COQ, 'theories', 'Generated', 'Gen_PyObj.v'), encoding='utf-8').read()
@@ -1420,7 +1495,7 @@ def main(chk: core.Check, replay: typing.Optional[str] = None) -> int:
         chk.report_known(FID_FPREC)
     for r in results:
         if '_pending' in r:
-            finish_namespace(r, exe, quirk, wrap_live, fprec_live)
+            finish_namespace(r, exe, quirk, wrap_live, fprec_live, num_live)
 
     selftest_bad = float_selftest(exe, chk.rng, 300 if quick else 3000) if exe else []
     if selftest_bad:
@@ -1448,6 +1523,9 @@ def main(chk: core.Check, replay: typing.Optional[str] = None) -> int:
         n_types += r.get('n_types', 0)
     if witness is None:
         broken.append('the probe namespace c18p could not be generated/run, the known finding could not be probed: %s' % '; '.join(errors)[:600])
+    if witness_num and not chk.is_known(FID_NUM):
+        oracle.insert(0, {'class': 'invalid_accepted', 'detail': 'witness of %s reproduces but the finding is not listed as known' % FID_NUM,
+                          'dsdl': PROBE_FILES})
     if witness_fprec and not chk.is_known(FID_FPREC):
         oracle.insert(0, {'class': 'invalid_accepted', 'detail': 'witness of %s reproduces but the finding is not listed as known' % FID_FPREC,
                           'dsdl': PROBE_FILES})
@@ -1475,6 +1553,8 @@ def main(chk: core.Check, replay: typing.Optional[str] = None) -> int:
     chk.notes.append('quirk model in use: %s (witness uint4[<=3] = [200, 3] %s; scanned template: arrelem_quirk=%s; live theorem: %s)'
                      % (quirk, 'reproduces' if witness else 'does not reproduce', tmpl_quirk,
                         'C18_obj_invariant_partial + C18_array_elem_range_refuted' if quirk else 'C18_obj_invariant_strict_noquirk'))
+    chk.notes.append('F-PY-NUMTEXT: witness uint8[<=4] = b\'00123\' %s; scanned template: t_text_guard=%s'
+                     % ('is accepted (stores [123])' if witness_num else 'is rejected', tmpl_guard))
     chk.notes.append('F-PY-ARRWRAP-FPREC: witness int16[<=3] = numpy.array([32768, 1], float16) %s' % ('is accepted (stores [-32768, 1])' if witness_fprec else 'is rejected'))
     chk.notes.append('F-PY-ARRWRAP: witness uint8[<=4] = numpy.array([256, 1], int64) %s; scanned template: t_arr_precheck=%s'
                      % ('is accepted (wraps to [0, 1])' if witness_wrap else 'is rejected', tmpl_precheck))
